@@ -14,6 +14,7 @@ API
   FAULT_OPS                                               names of the single-fault mutation operators
   expression(rng, typ, env, depth) -> str                 one expression of the given type over env (for C17)
   shape_expr(rng, depth) / shape_statement(rng, depth)    type-agnostic operator soups (parse-only workloads)
+  argpass_cases(rng, n_shapes) -> [(label, text)]         every method/function called with aliased variables as arguments
 """
 from __future__ import annotations
 
@@ -1352,6 +1353,48 @@ def matrix_cells(rng: random.Random, per_cell: int = 1) -> T.List[T.Tuple[str, s
     for f in funcs:
         cells.append(('probe:' + f, f))
     return cells
+
+
+# ------------------------------------------------------------------------------------------------------
+# argument passing: every method / function called with VARIABLES (and aliases of them) as receiver and arguments
+
+ARGPASS_SETUP = ("a1 = ['x', 'y']\na2 = a1\nn1 = [['p'], 'q']\nn2 = n1\ns1 = 'sep'\nd1 = {'k': ['v'], 'x': 1}\nd2 = d1\n"
+                 "i1 = 1\nb1 = true\ne1 = []\ne2 = e1\n")
+ARGPASS_OBSERVE = "message('after', a1, a2, n1, n2, s1, d1, d2, i1, b1, e1, e2)\n"
+ARGPASS_SHAPES = ['a1, {L}', '[a1, {L}]', '{L}, a1', 'n1, a1', 'a1', 'a1, a2', '[[a1], {L}]', 'e1, {L}', 'd1, {L}', 'a1, n1, {L}',
+                  '[e1, a1, {L}]', 's1, a1']
+ARGPASS_METHODS = {
+    'str': ['format', 'replace', 'strip', 'to_lower', 'to_upper', 'to_int', 'contains', 'startswith', 'endswith', 'substring', 'split',
+            'splitlines', 'join', 'underscorify', 'version_compare'],
+    'int': ['is_even', 'is_odd', 'to_string'],
+    'bool': ['to_int', 'to_string'],
+    'array': ['contains', 'get', 'length', 'slice', 'flatten'],
+    'dict': ['has_key', 'get', 'keys', 'values'],
+}
+ARGPASS_FUNCS = ['message', 'assert', 'set_variable', 'get_variable', 'is_variable', 'unset_variable', 'range']
+_ARGPASS_RECV = {'str': 's1', 'int': 'i1', 'bool': 'b1', 'array': 'a1', 'dict': 'd1'}
+
+
+def argpass_cases(rng: random.Random, n_shapes: int = 4) -> T.List[T.Tuple[str, str]]:
+    """(label, main file text): ONE call whose receiver and arguments are variables that have aliases -- array
+    first and followed by more arguments, inside an array literal, nested, empty, after a literal ... -- for every
+    documented method and function, whatever the documents say about that call (value, error or nothing).  The
+    point is not the result of the call: no variable may have another value afterwards (alias monitor)."""
+    out: T.List[T.Tuple[str, str]] = []
+    head = PROJECT_LINE + "\nmessage('BEGIN')\n" + ARGPASS_SETUP
+    calls: T.List[T.Tuple[str, str]] = []
+    for t, names in ARGPASS_METHODS.items():
+        for m in names:
+            calls.append((f'{t}.{m}', f'{_ARGPASS_RECV[t]}.{m}'))
+    for f in ARGPASS_FUNCS:
+        calls.append((f, f))
+    for label, callee in calls:
+        shapes = ARGPASS_SHAPES[:3] + rng.sample(ARGPASS_SHAPES[3:], max(0, n_shapes - 3)) if n_shapes < len(ARGPASS_SHAPES) else ARGPASS_SHAPES
+        for sh in shapes:
+            args = sh.format(L=rng.choice(["'z'", "'x'", '0', "['z']", 'true']))
+            stmt = rng.choice(['r = {c}({a})', '{c}({a})', 'r = [{c}({a})]', "message({c}({a}))"]).format(c=callee, a=args)
+            out.append((f'argpass:{label}({sh})', head + stmt + '\n' + ARGPASS_OBSERVE + "message('END')\n"))
+    return out
 
 
 # ------------------------------------------------------------------------------------------------------
